@@ -132,8 +132,9 @@ struct Runner
                 {
                     if (vmax[k] == 255) c = 128 + static_cast<size_t>(rng.below(128));
                     else if (vmax[k] == 127) c = 100 + static_cast<size_t>(rng.below(28));
-                    else if (vmax[k] == 65535 && vsize[k] <= 4 && rng.chance(1, 4)) c = 32768 + static_cast<size_t>(rng.below(2000));
-                    else if (vmax[k] == 32767 && vsize[k] <= 4 && rng.chance(1, 4)) c = 32000 + static_cast<size_t>(rng.below(767));
+                    // (16-bit count types: rarely, such spans make every later step of the case expensive to monitor)
+                    else if (vmax[k] == 65535 && vsize[k] <= 2 && rng.chance(1, 24)) c = 32768 + static_cast<size_t>(rng.below(200));
+                    else if (vmax[k] == 32767 && vsize[k] <= 2 && rng.chance(1, 24)) c = 32000 + static_cast<size_t>(rng.below(767));
                 }
                 c = std::min(c, vmax[k]);
                 counts.push_back(c);
